@@ -88,6 +88,9 @@ def Lib.init : Lib := { deps := ⟨0, 0, 0, 0, 0, 0, 0, 0⟩, reserved := reserv
 def Lib.get (lib : Lib) (b : Nat) : Option Data := lib.heap.lookup b
 def Lib.put (lib : Lib) (b : Nat) (d : Data) : Lib :=
   { lib with heap := (b, d) :: lib.heap.filter (fun p => p.1 != b) }
+/-- overwrite the contents of a live block in place (`polyseed_crypt` writes through the caller's pointer) -/
+def Lib.update (lib : Lib) (b : Nat) (d : Data) : Lib :=
+  { lib with heap := lib.heap.map (fun p => if p.1 == b then (b, d) else p) }
 def Lib.del (lib : Lib) (b : Nat) : Lib :=
   { lib with heap := lib.heap.filter (fun p => p.1 != b) }
 
@@ -295,7 +298,7 @@ def cryptData (d : Data) (mask : List Nat) : Data :=
 def crypt (cfg : Cfg) (env : Env) (lib : Lib) (b : Nat) (d : Data) (password : List Nat) : Lib × List Event :=
   let (pw, pre) := decompose cfg env lib password
   let mask := env.kdf lib.deps.pbkdf2 pw cryptSalt KDF_NUM_ITERATIONS 32
-  (lib.put b (cryptData d mask),
+  (lib.update b (cryptData d mask),
    pre ++ [.kdf lib.deps.pbkdf2 pw cryptSalt KDF_NUM_ITERATIONS 32 mask,
            .zeroStack lib.deps.memzero .poly cfg.sizeofPoly,
            .zeroStack lib.deps.memzero .mask 32,
